@@ -141,10 +141,16 @@ def run_group(name, outdir, rlimit=None, canary_calls=None, timeout=600):
             continue
         if VERIFICATION_MSG.search(msg):
             unit, rfile, rline = None, None, None
+            cands = []
             for ln in [line] + all_lines:
-                unit, rfile, rline = extract.map_line(metas, ln, text)
-                if unit:
-                    break
+                u, f_, l_ = extract.map_line(metas, ln, text)
+                if u:
+                    cands.append((u, f_, l_))
+            # attribute to the function whose body is being checked, not to the trait / contract declaration
+            body_units = set(m['id'] for m in metas if m.get('mode') == 'body')
+            pref = [c for c in cands if c[0] in body_units] or cands
+            if pref:
+                unit, rfile, rline = pref[0]
             res['failures'].append(dict(message=msg, unit=unit, gen_line=line, repo_file=rfile, repo_line=rline,
                                         clause=_clause_text(text, prim), rendered=rendered))
         elif RLIMIT_MSG.search(msg):
